@@ -119,7 +119,7 @@ impl<'a> Gen<'a> {
             6 => format!("{} = {}", self.pick(STR_VARS), self.str_expr()),
             7..=10 => {
                 let n = self.rng.gen_range(1..=3);
-                let mut s = String::from("PRINT ");
+                let mut s = String::from(if self.rng.gen_bool(0.1) { "? " } else { "PRINT " });
                 for i in 0..n {
                     if self.rng.gen_bool(0.3) { s.push_str(&self.str_expr()); } else { s.push_str(&self.num_expr(1)); }
                     if i + 1 < n { s.push_str(self.pick(&[";", ",", " ", ";"])); }
@@ -139,7 +139,7 @@ impl<'a> Gen<'a> {
                 }
             }
             15 => if self.has_data { "RESTORE".to_string() } else { "PRINT".to_string() },
-            16 => "REM comment: with colon".to_string(),
+            16 => if self.with_input && self.rng.gen_bool(0.5) { "INPUT A : INPUT B".to_string() } else { "REM comment: with colon".to_string() },
             17 => {
                 if self.with_input {
                     format!("INPUT {}", if self.rng.gen_bool(0.7) { self.pick(NUM_VARS).to_string() } else { format!("P({})", self.rng.gen_range(0..5)) })
@@ -150,7 +150,7 @@ impl<'a> Gen<'a> {
             18 => if self.with_stop { "STOP".to_string() } else { "PRINT \"-\";".to_string() },
             19 => {
                 if self.rng.gen_bool(self.fail_rate * 4.0) {
-                    self.pick(&["NEXT Z", "RETURN", "P(11) = 1", "A = \"X\"", "GOTO 7", "READ Z9", "DIM P(5)", "X = 1 +", "PRINT )", "S$ = 3", "Q(1) = 2", "A = 1/0", "A = P(-1)"]).to_string()
+                    self.pick(&["NEXT Z", "RETURN", "P(11) = 1", "A = \"X\"", "GOTO 7", "READ Z9", "DIM P(5)", "X = 1 +", "PRINT )", "S$ = 3", "Q(1) = 2", "A = 1/0", "A = P(-1)", "ZZ(1) = \"X\"", "N$(2) = 5", "W4(1,1,1,1) = \"X\""]).to_string()
                 } else {
                     format!("{} = {} * 2", self.pick(NUM_VARS), self.pick(NUM_VARS))
                 }
